@@ -9,7 +9,7 @@
      kernel     \det M != 0 -> M is a unit -> M *m v = 0 implies v = 0           (unitmxE, mulKmx). *)
 From Coq Require Import List Arith Lia Ring_theory Field_theory.
 From OV Require Import Base.Panic Base.Arith Model.Vector Model.Matrix Model.Banded
-  Proofs.Banded Proofs.BandedLU Proofs.BandedComplete Proofs.BandedDet Proofs.BandedDet2 Proofs.BandedDet2Wide Model.Solve Proofs.LUPrim Proofs.LUTab Bridge.Det.
+  Proofs.Banded Proofs.BandedLU Proofs.BandedComplete Proofs.BandedDet Proofs.BandedDet2 Proofs.BandedDet2Wide Proofs.BandedDet2Cor Proofs.BandedDet2Ker Model.Solve Proofs.LUPrim Proofs.LUTab Bridge.Det.
 From mathcomp Require Import all_ssreflect all_algebra all_fingroup.
 Set Implicit Arguments. Unset Strict Implicit. Unset Printing Implicit Defensive.
 Import GRing.Theory.
@@ -140,6 +140,37 @@ have [dd [E [_ K]]] := @band_det_spec_partial_lemma A FLA PL B wf m1n.
 by move: E K; rewrite band_det_is_det_lemma // => -[<-].
 Qed.
 
+(* ---- Banded::solve, completely: the solution D^-1 b when \det D != 0, the refusal (division by a zero pivot) otherwise ---- *)
+Definition colv (n : nat) (b : list F) : 'cV[F]_n := \col_(j < n) List.nth j b 0.
+
+Theorem band_solve_spec_lemma (B : banded A) (b : list F) :
+  @wfB A B -> (bm1 B <= bn B)%coq_nat -> length b = bn B ->
+  if \det (mx_of (bn B) (@dense_entry A B)) == 0
+  then @band_solve A B b = Panic DivZero
+  else exists x : list F, @band_solve A B b = Ok x /\ length x = bn B /\
+         colv (bn B) x = invmx (mx_of (bn B) (@dense_entry A B)) *m colv (bn B) b.
+Proof.
+move=> wf m1n blen.
+have [dd [Edet [K1 K2]]] := @band_det_nonzero_iff_lemma B wf m1n.
+move: Edet; rewrite band_det_is_det_lemma // => -[Edd].
+set D := mx_of _ _ in Edd *.
+case: eqP => [d0|/eqP dn0].
+- case: (@BandedDet2Cor.band_solve_trichotomy_lemma A FLA B b wf blen) => [[x [E _]] | [[_ [-> _]] // | [nm1 _]]]; last by lia.
+  have [[H _] _] := @BandedDet2Ker.band_solve_answers_iff_gen A FLA PL B wf m1n.
+  have ker : @trivial_kernel A B by apply: H; exists b, x.
+  by case: (K2 ker); rewrite -Edd.
+- have ker : @trivial_kernel A B by apply: K1; rewrite -Edd; apply/eqP.
+  have [x [E [xlen Hx]]] := @band_solve_complete_lemma A FLA PL B b wf blen m1n ker.
+  exists x; split=> //; split=> //.
+  have Du : D \in unitmx by rewrite unitmxE unitfE.
+  rewrite -[LHS](mulKmx Du); congr (_ *m _).
+  apply/matrixP => i j; rewrite !mxE.
+  have := congr1 (fun l => List.nth i l 0) Hx.
+  rewrite /dense_mulv (@nth_map_seq A); last exact/ltP.
+  rewrite sum_n_big => <-.
+  by apply: eq_bigr => t _; rewrite !mxE.
+Qed.
+
 (* padding slots never reach the determinant (over a field, under PivotLaws) *)
 Corollary band_det_same_slots (B B' : banded A) :
   @wfB A B -> (bm1 B <= bn B)%coq_nat -> @same_in_matrix_slots A B B' ->
@@ -185,3 +216,4 @@ Print Assumptions band_det_same_slots.
 Print Assumptions band_det_spec_lemma.
 Print Assumptions band_det_total_lemma.
 Print Assumptions band_det_nonzero_iff_lemma.
+Print Assumptions band_solve_spec_lemma.
